@@ -46,6 +46,9 @@ CONSTRUCTS = {
     "second-write": ('Memory zm: "signal-A";\nzm.write(("signal-A", 1));\nzm.write(("signal-A", 2));', ["zm", "write", "multiple", "already"]),
     "zero-step": ('for zi in 0..3 step 0 {\n Signal zq = zi + 1;\n}', ["step", "zero"]),
     "noncmp-before-colon": ('Signal z0 = ("signal-A", 1);\nSignal z1 = (z0 + 1) : 5;', ["comparison", ":"]),
+    "noncmp-ident-before-colon": ('Signal z0 = ("signal-A", 1);\nSignal z1 = z0 : 5;', ["comparison", ":"]),
+    "noncmp-before-colon-after-compare": ('Signal z0 = ("signal-A", 1);\nSignal zc = z0 > 3;\nSignal zd = 2 < z0;\nSignal z1 = z0 : 5;', ["comparison", ":"]),
+    "noncmp-untyped-after-compare": ('Signal z0 = 4;\nSignal zc = (z0 >= 3) : 2;\nSignal z1 = z0 : 5;', ["comparison", ":"]),
     "syntax": ('Signal z1 = 1 +;', ["parse", "syntax", "unexpected"]),
 }
 BENIGN = 'Signal zok = ("signal-Z", 1);\nSignal zok2 = zok + 1;'
